@@ -5,6 +5,7 @@ import (
 	"fmt"
 	"reflect"
 	"strings"
+	"sync"
 )
 
 // Object holds the definition for objects comprised of defined fields.
@@ -66,7 +67,21 @@ func (o *ObjectSchema) ReflectedType() reflect.Type {
 	return reflect.TypeOf(map[string]any{})
 }
 
+// objectDefaultsMutex guards the lazy decoding of ObjectSchema.defaultValues (nil in objects that
+// came out of UnserializeSchema): one object schema is used by many goroutines at once. The lock is
+// package-level because ObjectSchema values get copied (the TypedObjectSchema methods have value
+// receivers), which a lock inside the struct would not survive.
+var objectDefaultsMutex sync.RWMutex
+
 func (o *ObjectSchema) GetDefaults() map[string]any {
+	objectDefaultsMutex.RLock()
+	defaultValues := o.defaultValues
+	objectDefaultsMutex.RUnlock()
+	if defaultValues != nil {
+		return defaultValues
+	}
+	objectDefaultsMutex.Lock()
+	defer objectDefaultsMutex.Unlock()
 	if o.defaultValues == nil {
 		o.defaultValues = extractObjectDefaultValues(o.PropertiesValue)
 	}
